@@ -208,3 +208,6 @@ def run(ctx, eng):
                'self.encoder is handed to the stream', node=fi.node)
     ctx.assume('hpack\'s own correctness and the decode side are not '
                'decided')
+    cm.include(ctx, eng, 'C20', {'ORD.decode-first'},
+               'the receiving half of the same invariant: a block that was '
+               'encoded is decoded, whatever becomes of its stream')
